@@ -47,3 +47,12 @@ func (g *VerifGateValve) Nullify() (int64, int64) {
 	}
 	return a, b
 }
+
+// Verif19Wait calls the valve's own rxWait / txWait (what deplex and send call).
+func Verif19Wait(v *LimitedValve, tx bool, n int) {
+	if tx {
+		v.txWait(n)
+	} else {
+		v.rxWait(n)
+	}
+}
